@@ -85,7 +85,8 @@ class Rig:
                         self.action(wid, act)
             finally:
                 self.trace.append(('EXIT', wid))
-        self.handles[wid] = self.obj.param.watch(cb, params, onlychanged=spec['oc'], queued=spec['q'], precedence=spec['prec'])
+        self.handles[wid] = self.obj.param.watch(cb, params, what=spec.get('what', 'value'), onlychanged=spec['oc'], queued=spec['q'],
+                                                 precedence=spec['prec'])
         return wid
 
     def unwatch(self, wi):
@@ -179,7 +180,13 @@ class _Run:
                 items = items[:inject[2]] + [bad] + items[inject[2]:]
             obj.param.update(dict_ordered(items))
         elif k == 'trigger':
-            obj.param.trigger(*[('e' if p == 'e' else PN[p % np_]) for p in op['ps']])
+            names = [('e' if p == 'e' else PN[p % np_]) for p in op['ps']]
+            if inject is not None and inject[0] == 'trigger':
+                names.insert(inject[2], 'no_such_parameter')
+            obj.param.trigger(*names)
+        elif k == 'slot':
+            # a Parameter attribute of the instance's own Parameter object (watchers registered with what='doc')
+            obj.param[PN[op['p'] % np_]].doc = f"doc{op['v']}"
         elif k == 'event':
             obj.e = True
         elif k == 'constset':
@@ -214,7 +221,7 @@ class _Run:
             if upto is not None and i > upto:
                 break
             inject = None
-            if site is not None and site[0] in ('update', 'body') and site[1] == i:
+            if site is not None and site[0] in ('update', 'body', 'trigger') and site[1] == i:
                 inject = site
             depth = len(rig.ctx)
             before = rig.calls
@@ -232,6 +239,9 @@ class _Run:
                     for kk in range(n_items + 1):
                         for how in ('range', 'type', 'unknown'):
                             sites.append(('update', i, kk, how))
+                if op['op'] == 'trigger':
+                    for kk in range(len(op['ps']) + 1):
+                        sites.append(('trigger', i, kk))
                 if op['op'] == 'close' and depth:
                     for lv in range(1, depth + 1):
                         sites.append(('body', i, lv))
@@ -260,6 +270,9 @@ class _Run:
         rig.step('P8 update', lambda: obj.param.update(p0=104, n=5))
         rig.step('P9 event via update', lambda: obj.param.update(e=True))
 
+        slot_spec = {'ps': [0], 'what': 'label', 'oc': True, 'q': False, 'prec': 1, 'script': []}
+        rig.step('P10a watch a Parameter attribute', lambda: rig.watch(slot_spec))
+        rig.step('P10b set the Parameter attribute', lambda: setattr(obj.param['p0'], 'label', 'probe label'))
         rig.step('P11 set after close', lambda: setattr(obj, PN[1 % np_], 105))
         rig.step('P12 event after close', lambda: setattr(obj, 'e', True))
         rig.step('P13 trigger event', lambda: obj.param.trigger('e'))
@@ -372,7 +385,7 @@ class _Run:
             rig.trace.append(('OP', i, op['op']))
             exc = None
             try:
-                self.do_op(rig, i, op, cur if cur is not None and cur[0] in ('update', 'body') else None)
+                self.do_op(rig, i, op, cur if cur is not None and cur[0] in ('update', 'body', 'trigger') else None)
             except Fault:
                 exc = 'Fault'
             except Exception as e:      # noqa
@@ -530,7 +543,7 @@ class FaultsWorld:
         big = tier == 'thorough'
         np_ = rng.choice([2, 3, 4])
         cfg = {'n_params': np_, 'domain': rng.choice(['ints', 'numeric', 'text', 'containers']),
-               'n_inst': 1, 'cls_obj': False, 'slots': False, 'event': True,
+               'n_inst': 1, 'cls_obj': False, 'slots': False, 'event': True, 'attr_watchers': rng.random() < 0.3,
                'p_queued': rng.choice([0.0, 0.2, 0.4]), 'p_script': rng.choice([0.0, 0.3, 0.6]),
                'continue_after': rng.random() < 0.3, 'probe_each': False,
                'fault_free': rng.random() < 0.1,
@@ -548,6 +561,9 @@ class FaultsWorld:
                 a['o'] = 0
             if rng.random() < 0.25:
                 w['ps'] = list(w['ps']) + [rng.choice(['e', 'n'])]
+            if cfg['attr_watchers'] and rng.random() < 0.45:
+                w['what'] = 'doc'
+                w['ps'] = [p for p in w['ps'] if not isinstance(p, str)] or [0]
             ws.append(w)
         cfg['watchers'] = ws
         n_ops = min(30 if big else 18, 2 + int(rng.expovariate(1 / (10.0 if big else 7.0))))
@@ -555,11 +571,14 @@ class FaultsWorld:
         depth = 0
         for _ in range(n_ops):
             k = weighted(rng, [('set', 6), ('same', 1.5), ('update', 5), ('trigger', 2), ('event', 1.5), ('num', 1), ('constset', 1),
+                               ('slot', 3 if cfg['attr_watchers'] else 0),
                                ('watch', 0.7), ('unwatch', 0.7), ('open', 3 if depth < 4 else 0), ('close', 3 if depth else 0)])
             if k == 'set':
                 ops.append({'op': 'set', 'p': rng.randrange(np_), 'v': gen_value(rng, cfg['domain'])})
             elif k == 'same':
                 ops.append({'op': 'same', 'p': rng.randrange(np_)})
+            elif k == 'slot':
+                ops.append({'op': 'slot', 'p': rng.randrange(np_), 'v': rng.randint(0, 3)})
             elif k == 'num':
                 ops.append({'op': 'num', 'x': rng.randint(0, 10)})
             elif k == 'update':
